@@ -6,7 +6,7 @@ from common import *
 
 def make_job(case, idx):
     j = {'id': idx, 'kind': 'scan', 'modes': case['modes'], 'input': case['input'], 'ops': case['ops'],
-         'want': {'dump': True, 'cls': True, 'asts': True}}
+         'want': {'dump': True, 'cls': True, 'asts': True}, 'timeout_s': 30}
     if case.get('with_positions'):
         j['with_positions'] = True
     if case.get('scanner_mode') is not None:
@@ -109,6 +109,8 @@ def run_cases(cases, rdir, shard_size=30):
     for i, (c, r) in enumerate(zip(cases, results)):
         if r.get('harness_panic'):
             raise RuntimeError('harness panic: %s' % r['harness_panic'])
+        if r.get('harness_timeout'):
+            continue          # reported below: building or running this history did not return
         if r.get('build') != 'ok':
             continue
         entries.append((i, 'model', model_term(c, r)))
@@ -136,6 +138,11 @@ def run_cases(cases, rdir, shard_size=30):
             results[idx][{'model': 'model_outs', 'spech': 'spec_outs', 'spec': 'spec'}[kind]] = v
     violations, corr_breaks = [], []
     for idx, (c, r) in enumerate(zip(cases, results)):
+        if r.get('harness_timeout'):
+            violations.append({'kind': 'hang', 'idx': idx, 'case': c, 'impl': None, 'spec': None,
+                               'what_override': 'building the scanner or running this call history did not return within %d s '
+                                                '(non-termination)' % r['harness_timeout']})
+            continue
         if r.get('build') != 'ok' or 'model_outs' not in r:
             continue
         if r['spec_outs'] != r['outs']:
